@@ -397,3 +397,241 @@ def render(expr, indent, cfg=None):
     if k == "err":
         return "%s%s" % (pad, cfg.ret_err(expr[1]))
     fail("render: %r" % (k,))
+
+# =============================================================================================
+# second executor: loop bodies whose state is several buffers, small counters and booleans
+# (`expand_by_wrapper`).  Every local is tracked as a SYMBOLIC Lean expression over the state at
+# the start of the iteration; a leaf is the record of the locals that changed.
+#
+# additional statements:   <buf>.clear();   <buf>.push_str(&<buf2>);   <n> = 0 | 1;
+#                          <b> = <char> == '<c>';     <helper>(&mut <buf>, <a>, <b>);
+#                          if let Some(<x>) = <map>.get(&<buf>) { <buf2>.push_str(<x>) }
+#                          a trailing expression statement `<b> = true` without `;`
+# additional conditions:   <n> == 0 | 1,  <n> > 0,  <pred>(<char>)
+# =============================================================================================
+
+class GConfig:
+    def __init__(self, state_var, char_var, char_name, bools, nats, bufs, helpers, preds, lookup):
+        """bools / nats / bufs: Rust local -> Lean field; helpers: Rust fn -> Lean fn (first
+        argument `&mut buf`, result = new buffer); preds: Rust fn(char) -> Lean predicate;
+        lookup: (rust map name, lean expression template with {key})"""
+        self.state_var, self.char_var, self.char_name = state_var, char_var, char_name
+        self.bools, self.nats, self.bufs, self.helpers, self.preds, self.lookup = bools, nats, bufs, helpers, preds, lookup
+    def field(self, name):
+        for d in (self.bools, self.nats, self.bufs):
+            if name in d: return d[name]
+        fail("unknown local %s" % name)
+
+def gparse_block(text):
+    p = P(tokenize(text))
+    b = _gblock(p)
+    if p.peek()[0] != "eof":
+        fail("trailing tokens after the block")
+    return b
+
+def _gblock(p):
+    p.take("{")
+    out = []
+    while not p.at("}"):
+        out.append(_gstmt(p))
+    p.take("}")
+    return out
+
+def _gstmt(p):
+    if p.at("if", "let"):
+        # if let Some(x) = map.get(&key) { buf.push_str(x) } [;]
+        p.take(); p.take(); p.take("Some"); p.take("("); x = p.take()[1]; p.take(")"); p.take("=")
+        m = p.take()[1]; p.take("."); p.take("get"); p.take("("); p.take("&"); key = p.take()[1]; p.take(")")
+        p.take("{"); buf = p.take()[1]; p.take("."); p.take("push_str"); p.take("("); y = p.take()[1]; p.take(")")
+        if p.at(";"): p.take()
+        p.take("}")
+        if p.at(";"): p.take()
+        if x != y: fail("if let: pushes %s, not the bound %s" % (y, x))
+        return ("pushlookup", buf, m, key)
+    if p.at("if"):
+        p.take("if")
+        cond = _gor(p)
+        then = _gblock(p)
+        els = None
+        if p.at("else"):
+            p.take()
+            els = [_gstmt(p)] if p.at("if") else _gblock(p)
+        return ("if", cond, then, els)
+    tok = p.take()
+    if tok[0] != "id":
+        fail("unsupported statement starting with %r" % (tok[1],))
+    name = tok[1]
+    if p.at("."):
+        p.take(); meth = p.take()[1]; p.take("(")
+        if meth == "clear":
+            p.take(")"); _semi(p)
+            return ("clear", name)
+        if meth == "push":
+            a = p.take(); p.take(")"); _semi(p)
+            if a[0] == "char": return ("push", name, ("lit", unescape(a[1][1:-1])))
+            if a[0] == "id": return ("push", name, ("var", a[1]))
+        if meth == "push_str":
+            if p.at("&"):
+                p.take(); other = p.take()[1]; p.take(")"); _semi(p)
+                return ("pushbuf", name, other)
+        fail("unsupported call %s.%s" % (name, meth))
+    if p.at("("):
+        # helper(&mut buf, a, b)
+        p.take(); p.take("&"); p.take("mut"); buf = p.take()[1]
+        args = []
+        while p.at(","):
+            p.take(); args.append(p.take()[1])
+        p.take(")"); _semi(p)
+        return ("helper", name, buf, args)
+    if p.at("="):
+        p.take()
+        a = p.take()
+        if p.at("==") :
+            p.take(); rhs = p.take()
+            if a[0] != "id" or rhs[0] != "char": fail("unsupported comparison assignment")
+            _semi(p)
+            return ("assigncmp", name, a[1], unescape(rhs[1][1:-1]))
+        _semi(p)
+        return ("assign", name, a[1])
+    fail("unsupported statement %s …" % name)
+
+def _semi(p):
+    if p.at(";"): p.take()
+    elif not p.at("}"): fail("expected `;`")
+
+def _gor(p):
+    a = _gand(p)
+    if p.at("||"):
+        p.take(); return ("or", a, _gor(p))
+    return a
+
+def _gand(p):
+    a = _gnot(p)
+    if p.at("&&"):
+        p.take(); return ("and", a, _gand(p))
+    return a
+
+def _gnot(p):
+    if p.at("!"):
+        p.take(); return ("not", _gnot(p))
+    if p.at("("):
+        p.take(); c = _gor(p); p.take(")"); return c
+    tok = p.take()
+    if tok[0] != "id": fail("unsupported condition atom %r" % (tok[1],))
+    if p.at("("):
+        p.take(); arg = p.take()[1]; p.take(")")
+        return ("pred", tok[1], arg)
+    if p.at("==") or p.at("!=") or p.at(">"):
+        op = p.take()[1]; rhs = p.take()
+        if rhs[0] == "char": return ("cheq" if op == "==" else "chne", tok[1], unescape(rhs[1][1:-1]))
+        if rhs[0] == "num": return ("ncmp", tok[1], op, rhs[1])
+        fail("unsupported comparison")
+    return ("var", tok[1])
+
+def gtranslate(stmts, cfg):
+    return _gexec(list(stmts), {}, cfg)
+
+def _val(env, name, cfg):
+    return env.get(name, "%s.%s" % (cfg.state_var, cfg.field(name)))
+
+def _gexec(stmts, env, cfg):
+    if not stmts:
+        return ("leaf", dict(env))
+    s, rest = stmts[0], stmts[1:]
+    k = s[0]
+    if k == "if":
+        c = _gcond(s[1], env, cfg)
+        if c is True: return _gexec(list(s[2]) + rest, dict(env), cfg)
+        if c is False: return _gexec(list(s[3] or []) + rest, dict(env), cfg)
+        return ("ite", c, _gexec(list(s[2]) + rest, dict(env), cfg), _gexec(list(s[3] or []) + rest, dict(env), cfg))
+    env = dict(env)
+    if k == "clear":
+        env[s[1]] = "[]"
+    elif k == "push":
+        item = cfg.char_var if s[2][0] == "var" else lean_char(s[2][1])
+        if s[2][0] == "var" and s[2][1] != cfg.char_name: fail("push of %s" % s[2][1])
+        env[s[1]] = "%s ++ [%s]" % (_paren(_val(env, s[1], cfg)), item)
+    elif k == "pushbuf":
+        env[s[1]] = "%s ++ %s" % (_paren(_val(env, s[1], cfg)), _paren(_val(env, s[2], cfg)))
+    elif k == "pushlookup":
+        if s[2] != cfg.lookup[0]: fail("lookup in %s" % s[2])
+        env[s[1]] = "%s ++ %s" % (_paren(_val(env, s[1], cfg)), cfg.lookup[1].format(key=_paren(_val(env, s[3], cfg))))
+    elif k == "helper":
+        if s[1] not in cfg.helpers: fail("unknown helper %s" % s[1])
+        args = " ".join(_paren(_val(env, a, cfg)) if a not in ("true", "false") else a for a in s[3])
+        env[s[2]] = "%s %s %s" % (cfg.helpers[s[1]], _paren(_val(env, s[2], cfg)), args)
+    elif k == "assign":
+        if s[2] in ("true", "false") and s[1] in cfg.bools: env[s[1]] = s[2]
+        elif s[2] in ("0", "1") and s[1] in cfg.nats: env[s[1]] = s[2]
+        else: fail("unsupported assignment %s = %s" % (s[1], s[2]))
+    elif k == "assigncmp":
+        if s[2] != cfg.char_name or s[1] not in cfg.bools: fail("unsupported comparison assignment")
+        env[s[1]] = "(%s == %s)" % (cfg.char_var, lean_char(s[3]))
+    else:
+        fail("unsupported statement %r" % (k,))
+    return _gexec(rest, env, cfg)
+
+def _paren(e):
+    return e if re.match(r"^[\w.\[\]']+$", e) else "(%s)" % e
+
+def _gcond(c, env, cfg):
+    k = c[0]
+    if k == "var":
+        if c[1] not in cfg.bools: fail("non-boolean %s used as a condition" % c[1])
+        v = _val(env, c[1], cfg)
+        if v == "true": return True
+        if v == "false": return False
+        return ("b", v)
+    if k in ("cheq", "chne"):
+        if c[1] != cfg.char_name: fail("comparison of %s" % c[1])
+        return (k, c[2])
+    if k == "ncmp":
+        v = _val(env, c[1], cfg)
+        if v in ("0", "1"):
+            n, m = int(v), int(c[3])
+            return {"==": n == m, "!=": n != m, ">": n > m}[c[2]]
+        return ("n", v, c[2], c[3])
+    if k == "pred":
+        if c[1] not in cfg.preds or c[2] != cfg.char_name: fail("unknown predicate %s" % c[1])
+        return ("p", cfg.preds[c[1]])
+    if k == "not":
+        a = _gcond(c[1], env, cfg)
+        if a is True: return False
+        if a is False: return True
+        return ("not", a)
+    a, b = _gcond(c[1], env, cfg), _gcond(c[2], env, cfg)
+    if k == "and":
+        if a is False or b is False: return False
+        if a is True: return b
+        if b is True: return a
+        return ("and", a, b)
+    if a is True or b is True: return True
+    if a is False: return b
+    if b is False: return a
+    return ("or", a, b)
+
+def _grcond(c, cfg):
+    k = c[0]
+    if k == "b": return c[1]
+    if k == "cheq": return "%s = %s" % (cfg.char_var, lean_char(c[1]))
+    if k == "chne": return "%s ≠ %s" % (cfg.char_var, lean_char(c[1]))
+    if k == "n": return "%s %s %s" % (c[1], {"==": "=", "!=": "≠", ">": ">"}[c[2]], c[3])
+    if k == "p": return "%s %s" % (c[1], cfg.char_var)
+    if k == "not":
+        a = c[1]
+        if a[0] == "b": return "%s = false" % a[1]
+        return "¬ (%s)" % _grcond(a, cfg)
+    op = " ∧ " if k == "and" else " ∨ "
+    a, b = _grcond(c[1], cfg), _grcond(c[2], cfg)
+    if c[1][0] in ("and", "or"): a = "(%s)" % a
+    if c[2][0] in ("and", "or") and c[2][0] != k: b = "(%s)" % b
+    return a + op + b
+
+def grender(expr, indent, cfg):
+    pad = "  " * indent
+    if expr[0] == "ite":
+        return "%sif %s then\n%s\n%selse\n%s" % (pad, _grcond(expr[1], cfg), grender(expr[2], indent + 1, cfg), pad, grender(expr[3], indent + 1, cfg))
+    env = expr[1]
+    if not env:
+        return pad + cfg.state_var
+    return "%s{ %s with %s }" % (pad, cfg.state_var, ", ".join("%s := %s" % (cfg.field(k), v) for k, v in env.items()))
